@@ -15,7 +15,7 @@ import (
 
 type c06Body struct {
 	session, username, password, old, new string
-	admin                                   bool
+	admin                                 bool
 }
 
 func (b c06Body) coq() string {
@@ -361,6 +361,18 @@ func runC06(em *vEmitter, r *vRng) {
 				}
 			}
 			do(ep, b, shape)
+		}
+		// a credential that expires between two uses: accepted while valid, refused afterwards -
+		// on every endpoint, whatever was presented before (sequences 0 and 1 only: it sleeps)
+		if seq < 2 {
+			cred := []string{"root:true:%d", "alice:false:%d"}[seq]
+			tok := x.sealed(fmt.Sprintf(cred, time.Now().Unix()-597))
+			do("list", c06Body{session: tok}, "valid")
+			do("update", c06Body{session: tok, username: "alice", new: "early" + strconv.Itoa(seq)}, "valid")
+			time.Sleep(time.Until(time.Unix(time.Now().Unix()+4, 0)))
+			for _, ep := range eps[1:] {
+				do(ep, c06Body{session: tok, username: "alice", password: "late", new: "late" + strconv.Itoa(seq), admin: true}, "valid")
+			}
 		}
 		coq := fmt.Sprintf("WebSeq %s %s %s %s %d %s", ms.cfgTerm(), ms.tablesTerm(), x.initDir, cList(x.logInit), 600000, cList(x.steps))
 		c := vCase{Prop: "C06", Kind: "webseq", Class: "sequence", Nontrivial: true, Coq: coq, Human: map[string]interface{}{"requests": x.human}}
